@@ -152,6 +152,23 @@ class PyModel:
             return v
         return BoundMethod(obj, attr)
 
+    def bound_value(self, ex, bm):
+        """an attribute of a non-object value used as a value (not called): AttributeError unless the
+        Python type of the receiver has that attribute"""
+        import decimal
+        recv = bm.recv
+        if not isinstance(recv, z3.ExprRef):
+            return L.OpaqueV(L.OK['boundmethod'], ex.fresh_int('bm'))
+        table = [(L.is_None(recv), type(None)), (L.is_Bool(recv), bool), (L.is_Int(recv), int), (L.is_Float(recv), float),
+                 (L.is_Dec(recv), decimal.Decimal), (L.is_Str(recv), str), (L.is_List(recv), list), (L.is_Dict(recv), dict),
+                 (L.is_Tuple(recv), tuple), (L.is_Slice(recv), slice), (L.is_Ellipsis(recv), type(Ellipsis))]
+        for cond, pytype in table:
+            if ex.branch(cond, 'attr-recv-%s' % pytype.__name__):
+                if not hasattr(pytype, bm.name):
+                    ex.raise_('AttributeError', '%s object has no attribute %s' % (pytype.__name__, bm.name))
+                return L.OpaqueV(L.OK['boundmethod'], ex.fresh_int('bm'))
+        return self.stubs.unknown_call(ex, 'attribute %s of a host object' % bm.name, [recv])
+
     def setattr(self, ex, obj, attr, v):
         if not ex.branch(L.is_Obj(obj), 'setattr-on-obj'):
             ex.raise_('AttributeError', 'setattr on non-object')
@@ -260,7 +277,10 @@ class PyModel:
 
     def format_value(self, ex, v):
         # format() of plain data has no effects; of anything else it may run arbitrary code
-        if isinstance(v, (St, Closure, BoundMethod)):
+        if isinstance(v, BoundMethod):
+            ex.to_val(v)
+            return
+        if isinstance(v, (St, Closure)):
             return
         v = ex.to_val(v)
         return
